@@ -265,6 +265,9 @@ def load_findings(path=None):
             continue
         if line.startswith('finding:'):
             kv = dict(re.findall(r'(\w+)=(\S+)', line))
+            mo = re.search(r'obligation=(.*\S)\s*$', line)   # safety obligation keys contain a space: take the rest of the line
+            if mo:
+                kv['obligation'] = mo.group(1)
             cur = {'prop': kv['property'], 'obligation': kv['obligation'], 'S': None, 'pinned': None, 'witness': None, 'what': ''}
             out.append(cur)
         elif line.startswith('fixed:'):
@@ -647,7 +650,7 @@ def harness_text(c, sig, gen_text, extra_requires=(), ensures_override=None, can
         args.append(n)
     L.append('  %s(%s);' % (fn_contract, ', '.join(args)))
     if keep_sigs:
-        L.append('  if (nondet_u8() == 77) ll2c_keep_refs();  /* reachability only (library linking); after the checked call */')
+        L.append('  if (nondet_u8() == 77) { __CPROVER_assume(0); ll2c_keep_refs(); }  /* syntactic reachability only (library linking): never executed */')
     L.append('}')
     lines['__fn_contract__'] = fn_contract
     return '\n'.join(L) + '\n', lines
